@@ -109,9 +109,204 @@ theorem prioSendData_ext (s : Streams) (id len : Nat) (eos : Bool) : Ext s (s.pr
   unfold Streams.prioSendData; ext_auto
   all_goals (first | exact sendClose_state_same (by assumption) | skip)
 
-theorem popFrame_ext (n : Nat) (s : Streams) (m : Nat) : Ext s (popFrame n s m).1 := by
+abstract_const Streams.popFrame._f Stream.sendData as popF_G
+noncomputable def popFrameG (sd : Stream → Nat → Nat → Stream × List String × Bool) (x : Nat) (s : Streams) (m : Nat) : Streams × Option OutFrame :=
+  Nat.brecOn (motive := fun _ => Streams → Nat → Streams × Option Streams.OutFrame) x (popF_G sd) s m
+kernel_rfl popFrame_eq_G : popFrame = popFrameG Stream.sendData
+
+/-- copy of `pop_frame` with `Stream::send_data` as a parameter -/
+def popFrame' (sd : Stream → Nat → Nat → Stream × List String × Bool) : Nat → Streams → Nat → Streams × Option OutFrame
+  | 0, s, _ => (s, none)
+  | fuel + 1, s, maxLen =>
+    match s.qPop .pendingSend with
+    | (s, none) => (s, none)
+    | (s, some id) =>
+      let st := s.stream id
+      let isPendingReset := st.isPendingResetExpiration
+      let finish := fun (s : Streams) (f : OutFrame) =>
+        let st := s.stream id
+        let s := if !st.pendingSend.isEmpty || st.state.isScheduledReset then (s.qPush .pendingSend id).1 else s
+        (s.transitionAfter id isPendingReset, some f)
+      match st.pendingSend with
+      | .data sz eos :: rest =>
+        let discard : Bool := match st.state.getScheduledReset with
+          | some reason => reason != NO_ERROR
+          | none => false
+        if discard then
+          let s := (s.clearQueue id).reclaimAllCapacity id
+          popFrame' sd fuel (s.qPush .pendingSend id).1 maxLen
+        else
+          let streamCapacity := st.sendFlow.available
+          if sz > 0 && streamCapacity.eqUsize 0 then
+            popFrame' sd fuel s maxLen
+          else
+            let len := usizeAsU32 (min (min sz maxLen) streamCapacity.asSize)
+            if len > 0 && len > st.sendFlow.windowSz then
+              popFrame' sd fuel s maxLen
+            else
+              let s := s.modStream id fun st => { st with pendingSend := rest }
+              let (st', w, bad) := sd (s.stream id) len s.prio.maxBufferSize
+              let s := (s.setStream st').wake w
+              let s := if bad then s.panic "assertion failed: self.window_size.0 >= sz as i32 (stream)" else s
+              let s := s.modPrio fun p => { p with flow := (p.flow.assignCapacity len).1 }
+              let (fl, r) := s.prio.flow.sendData len
+              let s := s.modPrio fun p => { p with flow := fl }
+              let s := match r with
+                | .error .assertFailed => s.panic "assertion failed: self.window_size.0 >= sz as i32 (connection)"
+                | _ => s
+              let flagEos := if sz > len then false else eos
+              finish s (.data len flagEos { key := id, sid := st.id, rest := sz - len, eos := eos })
+      | .headers heos fields :: rest =>
+        finish (s.modStream id fun st => { st with pendingSend := rest }) (.headers st.id heos fields)
+      | .reset reason :: rest =>
+        finish (s.modStream id fun st => { st with pendingSend := rest }) (.reset st.id reason)
+      | .pushPromise pk pid fields :: rest =>
+        let s := s.modStream id fun st => { st with pendingSend := rest }
+        match s.store.findKey? pid with
+        | none =>
+          let st := s.stream id
+          let s := if !st.pendingSend.isEmpty || st.state.isScheduledReset then (s.qPush .pendingSend id).1 else s
+          popFrame' sd fuel (s.transitionAfter id isPendingReset) maxLen
+        | some pushed =>
+          let _ := pk
+          let s := s.modStream pushed fun st => { st with isPendingPush := false }
+          let s :=
+            if !(s.stream pushed).pendingSend.isEmpty then
+              if s.counts.canIncNumSendStreams then (((s.incNumSendStreams pushed).qPush .pendingSend pushed).1)
+              else s.queueOpen pushed
+            else s
+          finish s (.pushPromise st.id pid fields)
+      | [] =>
+        match st.state.getScheduledReset with
+        | some reason =>
+          let s := s.modStreamW id fun st => st.setReset reason .library
+          finish s (.reset st.id reason)
+        | none =>
+          popFrame' sd fuel (s.transitionAfter id isPendingReset) maxLen
+
+
+kernel_rfl popFrameG_eq' : ∀ (sd : Stream → Nat → Nat → Stream × List String × Bool), popFrameG sd = popFrame' sd
+
+/-- `pop_frame` is the copy instantiated with `Stream::send_data` -/
+theorem popFrame_eq' : popFrame = popFrame' Stream.sendData := by
+  rw [popFrame_eq_G, popFrameG_eq']
+
+theorem ext_setStream_of_sd {s0 s : Streams} {sd : Stream → Nat → Nat → Stream × List String × Bool}
+    (hsd : ∀ x a b, SameR x (sd x a b).1) {id a b : Nat} {st' : Stream} {w : List String} {bad : Bool}
+    (hx : Ext s0 s) (heq : sd (s.stream id) a b = (st', w, bad)) : Ext s0 (s.setStream st') := by
+  have h := hsd (s.stream id) a b
+  rw [heq] at h
+  exact hx.trans (setStream_stream_ext _ _ _ h)
+
+theorem popFrame'_ext (sd : Stream → Nat → Nat → Stream × List String × Bool)
+    (hsd : ∀ x a b, SameR x (sd x a b).1) (n : Nat) (s : Streams) (m : Nat) : Ext s (popFrame' sd n s m).1 := by
   induction n generalizing s m with
-  | zero => unfold popFrame; ext_auto
-  | succ n ih => unfold popFrame; ext_auto_ih ih
+  | zero => unfold popFrame'; ext_auto
+  | succ n ih =>
+    unfold popFrame'; ext_auto_ih ih
+    all_goals
+      rename_i hx _ _ _ _ heq
+      exact ext_setStream_of_sd hsd hx heq
+
+theorem popFrame_ext (n : Nat) (s : Streams) (m : Nat) : Ext s (popFrame n s m).1 := by
+  rw [popFrame_eq']; exact popFrame'_ext _ sendData_same n s m
+
+theorem prioBufferPendingLoop_ext (n : Nat) (s : Streams) (w : Writer) : Ext s (prioBufferPendingLoop n s w).1 := by
+  induction n generalizing s w with
+  | zero => unfold prioBufferPendingLoop; ext_auto
+  | succ n ih => unfold prioBufferPendingLoop; ext_auto_ih ih
+
+theorem prioBufferPending_ext (n : Nat) (s : Streams) (w : Writer) : Ext s (prioBufferPending n s w).1 := by
+  unfold prioBufferPending; ext_auto
+
+-- ===================================================================== send.rs
+
+theorem sendOpenId_ext (s : Streams) : Ext s s.sendOpenId.1 := by
+  unfold Streams.sendOpenId; ext_auto
+
+theorem sendOpen_state_same {s : Streams} {id : Nat} {eos : Bool} {st' : State} {r : Except UserError Unit}
+    (h : (s.stream id).state.sendOpen eos = (st', r)) (x : Stream) (hx : s.store.get? id = some x) :
+    SameR x { x with state := st' } := by
+  refine setState_same x st' fun hc => ?_
+  rw [stream_eq_of_get? hx] at h
+  have := sendOpen_closed x.state eos hc
+  rw [h] at this; exact this
+
+theorem sendHeaders_ext (s : Streams) (id : Nat) (eos : Bool) (f : List Hpack.Field) : Ext s (s.sendHeaders id eos f).1 := by
+  unfold Streams.sendHeaders; ext_auto
+  all_goals (first | exact sendOpen_state_same (by assumption) | skip)
+
+theorem sendReserveLocal_ext (s : Streams) : Ext s s.sendReserveLocal.1 := by
+  unfold Streams.sendReserveLocal; ext_auto
+
+theorem sendPushPromise_ext (s : Streams) (p k i : Nat) (f : List Hpack.Field) : Ext s (s.sendPushPromise p k i f).1 := by
+  unfold Streams.sendPushPromise; ext_auto
+
+theorem sendInterimInformationalHeaders_ext (s : Streams) (id : Nat) (f : List Hpack.Field) :
+    Ext s (s.sendInterimInformationalHeaders id f).1 := by
+  unfold Streams.sendInterimInformationalHeaders; ext_auto
+
+theorem sendSendReset_ext (s : Streams) (id : Nat) (r : Reason) (i : Initiator) : Ext s (s.sendSendReset id r i) := by
+  unfold Streams.sendSendReset; ext_auto
+
+theorem scheduleImplicitReset_ext (s : Streams) (id : Nat) (r : Reason) : Ext s (s.scheduleImplicitReset id r) := by
+  unfold Streams.scheduleImplicitReset; ext_auto
+  all_goals (intro x _; exact setState_same x _ fun _ => rfl)
+
+theorem sendTrailers_ext (s : Streams) (id : Nat) (f : List Hpack.Field) : Ext s (s.sendTrailers id f).1 := by
+  unfold Streams.sendTrailers; ext_auto
+  all_goals (first | exact sendClose_state_same (by assumption) | skip)
+
+theorem pollCapacity_ext (s : Streams) (id : Nat) (t : String) : Ext s (s.pollCapacity id t).1 := by
+  unfold Streams.pollCapacity; ext_auto
+
+theorem pollReset_ext (s : Streams) (id : Nat) (m : PollReset) (t : String) : Ext s (s.pollReset id m t).1 := by
+  unfold Streams.pollReset; ext_auto
+
+theorem sendRecvStreamWindowUpdate_ext (s : Streams) (id sz : Nat) : Ext s (s.sendRecvStreamWindowUpdate id sz).1 := by
+  unfold Streams.sendRecvStreamWindowUpdate; ext_auto
+
+theorem sendRecvGoAway_ext (s : Streams) (l : Nat) : Ext s (s.sendRecvGoAway l).1 := by
+  unfold Streams.sendRecvGoAway; ext_auto
+
+theorem sendHandleError_ext (s : Streams) (id : Nat) : Ext s (s.sendHandleError id) := by
+  unfold Streams.sendHandleError; ext_auto
+
+/-- `Store::try_for_each` with a step that is an `Ext` step -/
+theorem tryForEach_ext (f : Streams → Nat → Streams × Option PErr) (hf : ∀ s id, Ext s (f s id).1)
+    (n i len : Nat) (s : Streams) : Ext s (tryForEach f n i len s).1 := by
+  induction n generalizing i len s with
+  | zero => unfold tryForEach; ext_auto
+  | succ n ih =>
+    unfold tryForEach; ext_auto_ih ih
+    all_goals exact hf _ _
+
+theorem storeTryForEach_ext (s : Streams) (f : Streams → Nat → Streams × Option PErr) (hf : ∀ s id, Ext s (f s id).1) :
+    Ext s (s.storeTryForEach f).1 := by
+  unfold Streams.storeTryForEach; exact tryForEach_ext f hf _ _ _ _
+
+theorem storeForEach_ext (s : Streams) (f : Streams → Nat → Streams) (hf : ∀ s id, Ext s (f s id)) :
+    Ext s (s.storeForEach f) := by
+  unfold Streams.storeForEach; exact storeTryForEach_ext s _ fun s id => hf s id
+
+theorem decStreamWindow_ext (dec acc : Nat) (s : Streams) (id : Nat) : Ext s (decStreamWindow dec acc s id).1 := by
+  unfold Streams.decStreamWindow; ext_auto
+
+theorem tryForEachAcc_ext (f : Nat → Streams → Nat → Streams × Nat × Option PErr) (hf : ∀ a s id, Ext s (f a s id).1)
+    (n i len acc : Nat) (s : Streams) : Ext s (tryForEachAcc f n i len acc s).1 := by
+  induction n generalizing i len acc s with
+  | zero => unfold tryForEachAcc; ext_auto
+  | succ n ih =>
+    unfold tryForEachAcc; ext_auto_ih ih
+    all_goals exact hf _ _ _
+
+theorem sendApplyRemoteSettings_ext (s : Streams) (a b c : Option Nat) : Ext s (s.sendApplyRemoteSettings a b c).1 := by
+  unfold Streams.sendApplyRemoteSettings; ext_auto
+
+theorem sendClearQueues_ext (s : Streams) : Ext s s.sendClearQueues := by
+  unfold Streams.sendClearQueues; ext_auto
+
+theorem sendMaybeResetNextStreamId_ext (s : Streams) (id : Nat) : Ext s (s.sendMaybeResetNextStreamId id) := by
+  unfold Streams.sendMaybeResetNextStreamId; ext_auto
 
 end H2V.Lemmas.ConnRecvP
